@@ -1,22 +1,57 @@
-"""C22 — Classic VI results do not depend on the number of MPI tasks (shareRange part; see DESIGN.md §5 C22)."""
+"""C22 — Classic VI results do not depend on the number of MPI tasks (DESIGN.md §5 C22).
+
+Part 1 (translator T3): `shareRange` regenerated into Lean, compared exhaustively with the Python original.
+Part 2 (Model/Distributed.lean): which global indices / seeds / neg flags every task handles — compared with what the
+        real `draw_samples` / `ResidualSampleList` report on every rank (class E).
+Part 3 (the property itself, on the real code): scenarios
+          kl   SampledKLEnergy (value, gradient, metric·v, samples, average, sample_stat; mirrored or not, constants,
+               point estimates, geometric sampling),
+          sl   SampleList / ResidualSampleList built from an explicit (arbitrary ordered) partition: average, sample_stat,
+               iterator, n_samples,
+          okl  a small optimize_kl run (MAP iteration with n_samples=0, then sampled iterations)
+        run with comm=None and over the synchronous fake communicator with 1..6 ranks (more ranks than samples included);
+        every rank's results must be BITWISE equal to the single-process results.
+"""
+import hashlib
+import os
+import shutil
+import tempfile
+
+from core.ctx import canon
+from props import _mpi_fakempi as fm
 from translators import t3_sharerange
 
 ID = "C22"
-LEAN_MODULES = ["NiftyVerif.Props.C22"]
+LEAN_MODULES = ["NiftyVerif.Props.C22", "NiftyVerif.Core.Proto", "NiftyVerif.Model.Distributed"]
 DRIVER = "Driver/C22.lean"
 TRANSLATORS = [t3_sharerange.translate]
 OBLIGATIONS = ["NiftyVerif.C22." + t for t in (
     "shareRange_starts_at_zero", "shareRange_consecutive", "shareRange_ends_at_n", "shareRange_size",
-    "shareRange_monotone", "shareRange_covers", "shareRange_disjoint")]
-RULE = ("shareRange(n,p,r) enumerated for all n<=N, 1<=p<=P, r<p (plus p=0 error stream); non-trivial = n>0; "
-        "distinct by (n,p,r)")
+    "shareRange_monotone", "shareRange_covers", "shareRange_disjoint",
+    "mirror_pair_same_seed", "odd_start_redraws_same_y", "localIndices_concat",
+    "local_results_independent_of_partition", "samples_same_for_all_task_counts", "local_indices_eq_shareRange",
+    "distributed_average_eq_serial", "iterate_keeps_sync", "sync_checks_never_fire", "root_keeps_object_breaks_sync",
+    "single_value_list")]
+RULE = ("(a) shareRange(n,p,r) enumerated for all n<=N, 1<=p<=P, r<p (plus p=0 error stream); "
+        "(b) scenario specs (kl: n_samples 1..4 x mirrored x constants/point estimates x linear/geometric sampling; "
+        "sl: explicit partitions incl. empty ranks; okl: MAP + sampled iterations) each run serially and with p ranks, "
+        "p from 1..6; non-trivial = at least two ranks hold samples or some rank is empty; distinct by (spec, p)")
 TRUSTED_BASE = ["Lean 4.33 kernel; axioms propext/Classical.choice/Quot.sound only (audited every run)",
                 "translator T3 (translators/t3_sharerange.py, py2lean.py): straight-line integer code -> Lean Nat; "
-                "validated every run by exhaustive comparison with the Python original on the enumerated grid"]
-ASSUMPTIONS = ["Python ints modelled as Nat (call sites pass non-negative values)"]
+                "validated every run by exhaustive comparison with the Python original on the enumerated grid",
+                "harness/props/_mpi_fakempi.py stands in for MPI (synchronous sends, forked ranks)",
+                "Model/Distributed.lean is a hand transcription of draw_samples' loop and _compute_local_indices; "
+                "`draw` is an uninterpreted function of the seed index (justified by C21 draws_depend_only_on_seed)"]
+ASSUMPTIONS = ["Python ints modelled as Nat (call sites pass non-negative values)",
+               "real MPI transport, pickling through mpi4py and rank-dependent BLAS threading are not exercised"]
+
+P_ALL = [1, 2, 3, 4, 5, 6]
+NASTY = [1e16, 1.0, -1e16, 3.0, 1e-3, -1.0, 0.1, 7.0, 1e-17, -3.0, 0.3, 2.5]
 
 
-def _impl(case):
+# ------------------------------------------------------------------------------------------------------
+# part 1: shareRange
+def _impl_share(case):
     from nifty.cl.utilities import shareRange
     try:
         lo, hi = shareRange(case["n"], case["p"], case["r"])
@@ -25,8 +60,7 @@ def _impl(case):
         return {"error": "ZeroDivisionError"}
 
 
-def oracle(case):
-    """property stated on the real code only: the shares of (n,p) are an ordered exact partition of range(n)"""
+def _oracle_share(case):
     from nifty.cl.utilities import shareRange
     n, p = case["n"], case["p"]
     if p == 0:
@@ -46,35 +80,499 @@ def oracle(case):
     return None
 
 
+# ------------------------------------------------------------------------------------------------------
+# part 3: scenarios (run inside the rank processes)
+def _hexes(arr):
+    import numpy as np
+    a = np.asarray(arr)
+    if np.iscomplexobj(a):
+        a = np.stack([a.real, a.imag], -1)
+    return [float(t).hex() for t in np.asarray(a, dtype=np.float64).ravel()]
+
+
+def _enc(obj):
+    """Field / MultiField / scalar -> {key: hex list}"""
+    import nifty.cl as ift
+    if isinstance(obj, ift.MultiField):
+        return {k: _hexes(v.val.asnumpy()) for k, v in sorted(obj.to_dict().items())}
+    if isinstance(obj, ift.Field):
+        return {"": _hexes(obj.val.asnumpy())}
+    return {"": _hexes(obj)}
+
+
+def _digest(obj):
+    return hashlib.sha1(canon(_enc(obj)).encode()).hexdigest()[:16]
+
+
+def _build(spec):
+    import numpy as np
+    import nifty.cl as ift
+    dom = ift.RGSpace(4)
+    A = ift.FieldAdapter(dom, "a")
+    B = ift.FieldAdapter(dom, "b")
+    if spec.get("model", 0) == 0:
+        op = A.exp() * B.tanh() + A
+    else:
+        op = (A + B).sigmoid() + 0.5 * B
+    d = ift.makeField(dom, np.array(spec.get("data", [0.3, -1.2, 0.7, 2.1])))
+    N = ift.ScalingOperator(dom, 0.25, float)
+    lh = ift.GaussianEnergy(d, inverse_covariance=N.inverse) @ op
+    return dom, op, lh
+
+
+def _scen_kl(comm, spec, root=None):
+    import nifty.cl as ift
+    dom, op, lh = _build(spec)
+    ic = ift.GradientNormController(iteration_limit=spec.get("cg", 5))
+    ham = ift.StandardHamiltonian(lh, ic, prior_sampling_dtype=float)
+    pos = 0.1 * ift.from_random(lh.domain)
+    geo = ift.NewtonCG(ift.GradientNormController(iteration_limit=2)) if spec.get("geo") else None
+    kl = ift.SampledKLEnergy(pos, ham, spec["n"], geo, mirror_samples=spec["mirror"], constants=spec.get("const", []),
+                             point_estimates=spec.get("pe", []), comm=comm)
+    out = {"value": _enc(kl.value), "gradient": _enc(kl.gradient)}
+    vec = ift.from_random(kl.position.domain)
+    out["metric_v"] = _enc(kl.metric(vec))
+    sl = kl.samples
+    out["n_samples"] = int(sl.n_samples)
+    out["samples"] = [_enc(s) for s in sl.iterator()]
+    out["average_op"] = _enc(sl.average(op))
+    m, v = sl.sample_stat(op)
+    out["stat_mean"], out["stat_var"] = _enc(m), _enc(v)
+    kl2 = kl.at(kl.position + 0.01 * vec)
+    out["value_at"], out["gradient_at"] = _enc(kl2.value), _enc(kl2.gradient)
+    rsl = kl._sample_list
+    out["local"] = dict(indices=[int(i) for i in rsl.local_indices], neg=[bool(b) for b in rsl._n],
+                        ydig=[_digest(r) for r in rsl._r])
+    return out
+
+
+def _sl_sample(spec, i):
+    import numpy as np
+    import nifty.cl as ift
+    vals = spec["vals"]
+    dom = ift.RGSpace(3)
+    arr = np.array([vals[i % len(vals)], -vals[(i + 1) % len(vals)], vals[(2 * i + 1) % len(vals)]])
+    if spec.get("multi"):
+        return ift.MultiField.from_dict({"a": ift.makeField(dom, arr), "b": ift.makeField(dom, arr[::-1] * 0.5)})
+    return ift.makeField(dom, arr)
+
+
+def _scen_sl(comm, spec, root=None):
+    import nifty.cl as ift
+    p = 1 if comm is None else comm.Get_size()
+    r = 0 if comm is None else comm.Get_rank()
+    counts = spec["parts"][str(p)] if comm is not None else [spec["n"]]
+    lo = sum(counts[:r])
+    mine = [_sl_sample(spec, i) for i in range(lo, lo + counts[r])]
+    dom = _sl_sample(spec, 0).domain
+    sl = ift.SampleList(mine, comm=comm, domain=dom)
+    if spec.get("multi"):
+        op = ift.FieldAdapter(dom["a"], "a").exp() + ift.FieldAdapter(dom["b"], "b")
+    else:
+        op = ift.ScalingOperator(dom, 3.).exp() if spec.get("nonlin") else None
+    out = {"n_samples": int(sl.n_samples), "average": _enc(sl.average()), "samples": [_enc(s) for s in sl.iterator()]}
+    out["average_op"] = _enc(sl.average(op))
+    m, v = sl.sample_stat(op)
+    out["stat_mean"], out["stat_var"] = _enc(m), _enc(v)
+    # the same data as residuals around a mean
+    mean = _sl_sample(spec, 1)
+    neg = [bool((i * 7 + spec["n"]) % 3 == 0) for i in range(lo, lo + counts[r])]
+    rsl = ift.ResidualSampleList(mean, mine, neg, comm=comm)
+    out["r_average"] = _enc(rsl.average())
+    m, v = rsl.sample_stat(op)
+    out["r_stat_mean"], out["r_stat_var"] = _enc(m), _enc(v)
+    if spec.get("full"):
+        out["r_samples"] = [_enc(s) for s in rsl.iterator()]
+    out["local"] = dict(indices=[int(i) for i in sl.local_indices])
+    return out
+
+
+def _scen_okl(comm, spec, root=None):
+    import nifty.cl as ift
+    dom, op, lh = _build(spec)
+    ns = spec["ns"]
+    ic = ift.GradientNormController(iteration_limit=spec.get("cg", 4))
+    mini = ift.NewtonCG(ift.GradientNormController(iteration_limit=spec.get("newton", 2)))
+    geo = ift.NewtonCG(ift.GradientNormController(iteration_limit=2)) if spec.get("geo") else None
+    const, pe = spec.get("const", {}), spec.get("pe", {})
+    seen = []
+
+    def inspect(sl, i):
+        seen.append([int(i), int(sl.n_samples), _digest(sl.average())])
+
+    kw = dict(nonlinear_sampling_minimizer=geo, return_final_position=True, comm=comm,
+              constants=lambda i: const.get(str(i), []), point_estimates=lambda i: pe.get(str(i), []),
+              inspect_callback=inspect, plot_energy_history=False, plot_minisanity_history=False)
+    out = {}
+    if spec.get("odir") and len(ns) >= 2:
+        # with an output directory: exports + pickles written under MPI, then a second call that RESUMES from disk
+        odir = os.path.join(root, f"okl_{spec['seed']}_{'ser' if comm is None else comm.Get_size()}")
+        kw.update(output_directory=odir, export_operator_outputs={"sig": op}, resume=True)
+        ift.optimize_kl(lh, len(ns) - 1, lambda i: ns[i], mini, ic, **kw)
+        sl, mean = ift.optimize_kl(lh, len(ns), lambda i: ns[i], mini, ic, **kw)
+        base = os.path.join(odir, "pickle", "latest")
+        if os.path.isfile(base + ".mean.pickle"):
+            dsl = ift.ResidualSampleList.load(base, comm=comm)
+        else:
+            dsl = ift.SampleList.load(base, comm=comm)
+        out["disk_samples"] = [_enc(s) for s in dsl.iterator()]
+        out["last_finished"] = open(os.path.join(odir, "last_finished_iteration")).read()
+        try:
+            import h5py
+            import numpy as np
+            with h5py.File(os.path.join(odir, "sig", "latest.hdf5") if os.path.isfile(os.path.join(odir, "sig", "latest.hdf5"))
+                           else os.path.join(odir, "sig", "last.hdf5"), "r") as f:
+                out["h5_mean"] = _hexes(np.array(f["stats/mean"]))
+        except Exception as e:  # noqa: BLE001
+            out["h5_mean"] = sorted(os.listdir(os.path.join(odir, "sig"))) if os.path.isdir(os.path.join(odir, "sig")) else type(e).__name__
+    else:
+        sl, mean = ift.optimize_kl(lh, len(ns), lambda i: ns[i], mini, ic, output_directory=None, **kw)
+    out.update({"mean": _enc(mean), "n_samples": int(sl.n_samples), "samples": [_enc(s) for s in sl.iterator()],
+                "inspect": seen, "rng_depth": len(ift.random._sseq)})
+    m, v = sl.sample_stat(op)
+    out["stat_mean"], out["stat_var"] = _enc(m), _enc(v)
+    out["local"] = dict(indices=[int(i) for i in sl.local_indices])
+    return out
+
+
+def _scen_sync(comm, spec, root=None):
+    """do optimize_kl's own sync checks fire?  `rootkeeps`: a communicator whose bcast leaves the root's object in place
+    (NOT mpi4py's semantics) — the model predicts that the MAP branch then fails its check for >= 2 tasks"""
+    import copy
+    import nifty.cl as ift
+    if comm is not None and spec.get("rootkeeps"):
+        base_bcast = type(comm).bcast
+
+        def bcast(self, obj=None, root=0):
+            r = base_bcast(self, obj, root)
+            return obj if self.Get_rank() == root else r
+        comm = copy.copy(comm)
+        comm.__class__ = type("RootKeepsComm", (type(comm),), {"bcast": bcast})
+    dom, op, lh = _build(spec)
+    ns = spec["ns"]
+    ic = ift.GradientNormController(iteration_limit=2)
+    mini = ift.NewtonCG(ift.GradientNormController(iteration_limit=1))
+    try:
+        ift.optimize_kl(lh, len(ns), lambda i: ns[i], mini, ic, nonlinear_sampling_minimizer=None, output_directory=None,
+                        comm=comm, plot_energy_history=False, plot_minisanity_history=False)
+        return {"pass": True}
+    except RuntimeError as e:
+        if "not in sync" in str(e):
+            return {"pass": False}
+        raise
+
+
+SCEN = {"kl": _scen_kl, "sl": _scen_sl, "okl": _scen_okl, "sync": _scen_sync}
+
+
+def _job(comm, specs, serial, root):
+    import nifty.cl as ift
+    out = []
+    for i, spec in enumerate(specs):
+        comm.mark(i)
+        d0 = len(ift.random._sseq)
+        ift.random.push_sseq_from_seed(spec["seed"])
+        try:
+            out.append(SCEN[spec["scen"]](None if serial else comm, spec, root))
+        except fm.FakeMPIError:
+            raise
+        except Exception as e:  # noqa: BLE001
+            out.append({"error": type(e).__name__, "msg": str(e)[:200]})
+        finally:
+            while len(ift.random._sseq) > d0:
+                ift.random.pop_sseq()
+    return out
+
+
+def _run(specs, p, serial=False, timeout=None, mode="coop"):
+    """-> (list per spec of list per rank of outputs, failure info or None)"""
+    timeout = timeout or 150.0 * fm.load_factor()
+    root = tempfile.mkdtemp(prefix="c22_")
+    try:
+        res = fm.run(1 if serial else p, _job, specs, serial, root, seed=None, timeout=timeout, mode=mode)
+    finally:
+        shutil.rmtree(root, ignore_errors=True)
+    n = 1 if serial else p
+    outs = [[(res.values[r][i] if res.returned[r] and i < len(res.values[r]) else None) for r in range(n)]
+            for i in range(len(specs))]
+    fail = None
+    if not res.ok:
+        fail = dict(kind="deadlock" if res.deadlock and not res.timed_out else ("timeout" if res.timed_out else "rank-failed"),
+                    blocked=(res.deadlock or {}).get("blocked"), errors=res.errors,
+                    at=[max([int(c[1]) for c in res.calls[r] if c[0] == "mark"] or [0]) for r in range(n)])
+    return outs, fail
+
+
+def _strip(o):
+    return {k: v for k, v in o.items() if k not in ("local", "msg")} if isinstance(o, dict) else o
+
+
+def _first_diff(a, b):
+    if not isinstance(a, dict) or not isinstance(b, dict):
+        return "result"
+    for k in sorted(set(a) | set(b)):
+        if canon(a.get(k)) != canon(b.get(k)):
+            return k
+    return None
+
+
+def _judge(spec, p, base, outs, fail):
+    """compare one spec's per-rank outputs with the serial output -> None | (what, signature)"""
+    sig = {"site": spec["scen"]}
+    if fail is not None:
+        return (f"{spec['scen']} scenario with {p} ranks does not complete: {fail}", dict(sig, what=fail["kind"]))
+    for r, o in enumerate(outs):
+        if o is None:
+            return (f"{spec['scen']} scenario: rank {r} of {p} returned nothing", dict(sig, what="no-result"))
+        d = _first_diff(_strip(base), _strip(o))
+        if d is not None:
+            return (f"{spec['scen']} scenario {spec}: `{d}` on rank {r} of {p} differs from the single-process run: "
+                    f"{canon(o.get(d) if isinstance(o, dict) else o)[:160]} vs {canon(base.get(d) if isinstance(base, dict) else base)[:160]}",
+                    dict(sig, what=d))
+    return None
+
+
+def oracle(case):
+    """property on the real code only"""
+    if case.get("op") == "shareRange":
+        return _oracle_share(case)
+    spec, p = case["spec"], case["p"]
+    b, bf = _run([spec], 1, serial=True)
+    if bf is not None:
+        return None  # the single-process run itself fails: not a statement about distribution
+    o, f = _run([spec], p)
+    return _judge(spec, p, b[0][0], o[0], f)
+
+
 def shrink(case):
-    n, p, r = case["n"], case["p"], case["r"]
-    for n2 in range(0, n):
-        yield dict(case, n=n2)
-    for p2 in range(1, p):
-        yield dict(case, p=p2, r=min(r, p2 - 1))
+    if case.get("op") == "shareRange":
+        n, p, r = case["n"], case["p"], case["r"]
+        for n2 in range(0, n):
+            yield dict(case, n=n2)
+        for p2 in range(1, p):
+            yield dict(case, p=p2, r=min(r, p2 - 1))
+        return
+    spec, p = case["spec"], case["p"]
+    for p2 in range(2, p):
+        yield dict(case, p=p2)
+    if spec["scen"] == "kl":
+        if spec["n"] > 1:
+            yield dict(case, spec=dict(spec, n=spec["n"] - 1))
+        for k in ("geo", "const", "pe"):
+            if spec.get(k):
+                yield dict(case, spec={kk: vv for kk, vv in spec.items() if kk != k})
+    if spec["scen"] == "okl" and len(spec["ns"]) > 1:
+        yield dict(case, spec=dict(spec, ns=spec["ns"][1:]))
+        yield dict(case, spec=dict(spec, ns=spec["ns"][:-1]))
+
+
+# ------------------------------------------------------------------------------------------------------
+def _gen_specs(ctx):
+    rng = ctx.rng
+    specs = []
+    nkl = ctx.n(8, 32)
+    combos = [(n, m) for n in (1, 2, 3, 4) for m in (True, False)]
+    rng.shuffle(combos)
+    for i in range(nkl):
+        n, mirror = combos[i % len(combos)]
+        s = dict(scen="kl", seed=rng.randrange(1 << 30), n=n, mirror=mirror, model=rng.randrange(2),
+                 data=[rng.choice(NASTY[3:]) for _ in range(4)])
+        c = rng.random()
+        if c < 0.25:
+            s["const"] = ["a"]
+        elif c < 0.5:
+            s["pe"] = ["b"]
+        elif c < 0.6:
+            s["const"], s["pe"] = ["a"], ["a"]
+        elif c < 0.7:
+            s["const"], s["pe"] = ["b"], ["a"]
+        if rng.random() < 0.3:
+            s["geo"] = True
+        specs.append(s)
+    for i in range(ctx.n(5, 20)):
+        n = rng.randrange(1, 9)
+        parts = {}
+        for p in P_ALL:
+            counts = [0] * p
+            for _ in range(n):
+                counts[rng.randrange(p)] += 1
+            if rng.random() < 0.3:
+                counts = sorted(counts)  # rank 0 possibly empty
+            parts[str(p)] = counts
+        specs.append(dict(scen="sl", seed=rng.randrange(1 << 30), n=n, parts=parts, multi=rng.random() < 0.5,
+                          full=not ctx.quick,
+                          nonlin=rng.random() < 0.5, vals=[rng.choice(NASTY) for _ in range(5)]))
+    for i in range(ctx.n(2, 8)):
+        ns = [0] + [rng.randrange(1, 4) for _ in range(rng.randrange(1, 3))] if i % 2 == 0 else \
+            [rng.randrange(1, 4) for _ in range(2)]
+        s = dict(scen="okl", seed=rng.randrange(1 << 30), ns=ns, model=rng.randrange(2))
+        if rng.random() < 0.5:
+            s["const"] = {str(rng.randrange(len(ns))): ["a"]}
+        if rng.random() < 0.5:
+            s["pe"] = {str(rng.randrange(len(ns))): ["b"]}
+        if rng.random() < 0.3:
+            s["geo"] = True
+        if i % 2 == 1:
+            s["odir"] = True     # output directory + exports + resume from disk
+        specs.append(s)
+    return specs
+
+
+def _model_local(ctx, specs, ps):
+    lines, keys = [], []
+    for si, s in enumerate(specs):
+        if s["scen"] == "kl":
+            for p in ps:
+                lines.append(dict(op="localSamples", n=s["n"], mirror=s["mirror"], p=p))
+                keys.append((si, p))
+    return dict(zip(keys, ctx.model(DRIVER, lines))) if lines else {}
+
+
+def _classes(xs):
+    seen = {}
+    return [seen.setdefault(x, len(seen)) for x in xs]
 
 
 def run(ctx):
+    import numpy  # noqa: F401
+    import nifty.cl  # noqa: F401
+    # ---- part 1 -----------------------------------------------------------------------------------
     N, P = ctx.n(24, 80), ctx.n(8, 20)
     cases = [dict(op="shareRange", n=n, p=p, r=r) for n in range(N + 1) for p in range(1, P + 1) for r in range(p)]
     cases += [dict(op="shareRange", n=n, p=0, r=0) for n in range(3)]
-    outs = ctx.model(DRIVER, cases)
+    specs = _gen_specs(ctx)
+    # quick: three rank counts per run (which ones depends on the seed); thorough: all of 1..6
+    ps = P_ALL if not ctx.quick else [ctx.rng.choice([1, 2, 3]), ctx.rng.choice([4, 5]), 6]
+    lines = list(cases)
+    kl_keys = []
+    for si, s in enumerate(specs):
+        if s["scen"] == "kl":
+            for p in ps:
+                lines.append(dict(op="localSamples", n=s["n"], mirror=s["mirror"], p=p))
+                kl_keys.append((si, p))
+    sync_specs = []
+    for ns in ([0], [0, 1], [1, 0], [0, 0, 2], [2, 1]):
+        for rk in (False, True):
+            sync_specs.append(dict(scen="sync", seed=ctx.rng.randrange(1 << 30), ns=ns, rootkeeps=rk, model=0))
+    if ctx.quick:
+        sync_specs = sync_specs[:6]
+    sync_ps = [1, 2, 3] if not ctx.quick else [2]
+    n_before_sync = len(lines)
+    lines += [dict(op="sync", modes=[0 if n == 0 else 1 for n in s["ns"]], p=p, rootkeeps=s["rootkeeps"])
+              for p in sync_ps for s in sync_specs]
+    outs = ctx.model(DRIVER, lines)      # ONE model call for everything
+    mres = outs[n_before_sync:]
+    outs = outs[:n_before_sync]
     for c, m in zip(cases, outs):
-        ctx.stat("p=0" if c["p"] == 0 else ("p>n" if c["p"] > c["n"] else "p<=n"))
-        ctx.compare(c, _impl(c), m, note="T3 shareRange: generated Lean definition vs Python original",
+        ctx.stat("shareRange:" + ("p=0" if c["p"] == 0 else ("p>n" if c["p"] > c["n"] else "p<=n")))
+        ctx.compare(c, _impl_share(c), m, note="T3 shareRange: generated Lean definition vs Python original",
                     nontrivial=c["n"] > 0)
     for n in range(N + 1):
         for p in range(1, P + 1):
-            r = oracle(dict(n=n, p=p, r=0))
+            r = _oracle_share(dict(n=n, p=p, r=0))
             if r:
                 ctx.counterexample(dict(op="shareRange", n=n, p=p, r=0), *r)
-    ctx.extra["exhaustive"] = True
+    model_local = dict(zip(kl_keys, outs[len(cases):]))
+    # ---- parts 2 and 3 ------------------------------------------------------------------------------
+    base, bfail = _run(specs, 1, serial=True)
+    if bfail is not None:
+        ctx.broke("correspondence", "single-process baseline run failed", canon(bfail))
+        return
+    for p in ps:
+        outs_p, fail = _run(specs, p)
+        for si, s in enumerate(specs):
+            b = base[si][0]
+            case = dict(spec=s, p=p)
+            ctx.stat(f"scen={s['scen']}")
+            ctx.stat(f"p={p}")
+            if isinstance(b, dict) and "error" in b:
+                ctx.stat("baseline-error:" + b["error"])
+            this_fail = fail if (fail is not None and si >= min(fail["at"])) else None
+            j = _judge(s, p, b, outs_p[si], this_fail)
+            nsamp = b.get("n_samples", 0) if isinstance(b, dict) else 0
+            ctx.case(case, nontrivial=p > 1 and nsamp >= 1)
+            if p > nsamp:
+                ctx.stat("more-ranks-than-samples")
+                ctx.stat("more-ranks-than-samples:" + s["scen"])
+            if j is not None:
+                ctx.counterexample(case, *j)
+                continue
+            ctx.traces_validated += p
+            if s["scen"] == "kl" and isinstance(b, dict) and "error" not in b:
+                m = model_local[(si, p)]
+                loc = [o["local"] for o in outs_p[si]]
+                impl = dict(indices=[l["indices"] for l in loc])
+                mod = dict(indices=m["indices"])
+                if m["computed"] != m["indices"]:
+                    ctx.broke("correspondence", "model: computeLocalIndices != localIndices", canon(m))
+                if not s.get("geo"):
+                    impl["neg"] = [l["neg"] for l in loc]
+                    mod["neg"] = m["neg"]
+                    flat = _classes([d for l in loc for d in l["ydig"]])
+                    impl["yclass"] = flat
+                    mod["yclass"] = _classes([x for row in m["seed"] for x in row])
+                ctx.compare(dict(case, part="local"), impl, mod,
+                            note="draw_samples on every rank vs Model/Distributed (indices, neg flags, seed classes)",
+                            nontrivial=p > 1)
+    if not ctx.quick:
+        # cross-check of the cooperative scheduler itself: true process isolation (one forked process per rank)
+        sub = [s for s in specs if s["scen"] != "sl"][:6] + [s for s in specs if s["scen"] == "sl"][:2]
+        bsub = [base[specs.index(s)][0] for s in sub]
+        o3, f3 = _run(sub, 3, mode="procs")
+        for s, b, o in zip(sub, bsub, o3):
+            j = _judge(s, 3, b, o, f3)
+            ctx.stat("procs-mode-crosscheck")
+            if j is not None:
+                ctx.counterexample(dict(spec=s, p=3, mode="procs"), *j)
+    # ---- the sync checks of optimize_kl vs Model/Distributed.checksPass (incl. the non-mpi4py broadcast semantics) -------
+    k = 0
+    for p in sync_ps:
+        so, sf = _run(sync_specs, p)
+        for si, s in enumerate(sync_specs):
+            m = mres[k]
+            k += 1
+            case = dict(spec=s, p=p, part="sync")
+            ctx.stat("sync:" + ("rootkeeps" if s["rootkeeps"] else "mpi4py-bcast"))
+            if sf is not None:
+                ctx.counterexample(case, f"optimize_kl sync scenario with {p} ranks does not complete: {sf}",
+                                   {"site": "sync", "what": sf["kind"]})
+                break
+            outs_s = so[si]
+            impl = {"pass": all(isinstance(o, dict) and o.get("pass") is True for o in outs_s)} \
+                if all(isinstance(o, dict) and "pass" in o for o in outs_s) else {"ranks": outs_s}
+            ctx.compare(case, impl, m, note="optimize_kl's own sync checks vs Model/Distributed.checksPass", nontrivial=p > 1)
+            if not s["rootkeeps"] and impl != {"pass": True}:
+                ctx.counterexample(case, f"optimize_kl with {p} tasks and n_samples schedule {s['ns']} fails its own "
+                                         f"'MPI tasks are not in sync' check on a correct run: {outs_s}",
+                                   {"site": "sync", "what": "sync-check-fires"})
+    if not ctx.quick:
+        # MAP / sampled optimize_kl runs under true process isolation (no state shared between ranks at all)
+        sub2 = [s for s in specs if s["scen"] == "okl"][:4]
+        if sub2:
+            b2 = [base[specs.index(s)][0] for s in sub2]
+            o4, f4 = _run(sub2, 2, mode="procs")
+            for s, b, o in zip(sub2, b2, o4):
+                j = _judge(s, 2, b, o, f4)
+                ctx.stat("procs-mode-crosscheck-okl")
+                if j is not None:
+                    ctx.counterexample(dict(spec=s, p=2, mode="procs"), *j)
+    ctx.extra["exhaustive"] = False
+    ctx.extra["shareRange_exhaustive"] = dict(n=N, p=P)
+    ctx.extra["rank_counts"] = ps
 
 
 def search(ctx):
     for n in range(0, 200):
         for p in range(1, 40):
-            r = oracle(dict(n=n, p=p, r=0))
+            r = _oracle_share(dict(n=n, p=p, r=0))
             if r:
                 ctx.counterexample(dict(op="shareRange", n=n, p=p, r=0), *r)
+                return
+    rng = ctx.rng
+    for i in range(12):
+        s = dict(scen="kl", seed=rng.randrange(1 << 30), n=rng.randrange(1, 4), mirror=bool(i % 2), model=0)
+        for p in (2, 3):
+            r = oracle(dict(spec=s, p=p))
+            if r:
+                ctx.counterexample(dict(spec=s, p=p), *r)
                 return
